@@ -4,7 +4,7 @@ CONSTANTS
   NTab = 1
   NSid = 5
   Devs = {}
-  Acts = {"WriteNone", "ConcatEmpty", "NewVec", "ShareVec", "Copy", "Drop", "Write", "ReadFp", "Promote"}
+  Acts = {"RawCopy", "WriteNone", "ConcatEmpty", "NewVec", "ShareVec", "Copy", "Drop", "Write", "ReadFp", "Promote"}
   Lens = {1, 2}
   Vals = {0, 1}
   NameSet = {"-"}
